@@ -47,6 +47,10 @@ type RedisOutput struct {
 	rdbFilterCounterRt atomic.Int64
 	rdbSendCounterRt   atomic.Int64
 
+	// id of the last SetRunId call that started relabelling and has not completed : the checkpoint
+	// hash may already name it although cfg.RunId is still the id before it
+	pendingRunId string
+
 	cpGuard         sync.RWMutex
 	checkpointInMem checkpoint.CheckpointInfo
 	// database the connection was in at checkpointInMem.Offset : the next run on this output re-selects it
@@ -269,6 +273,19 @@ func (ro *RedisOutput) SetRunId(ctx context.Context, id string) error {
 			return err
 		}
 		defer cli.Close()
+		if pending := ro.pendingRunId; pending != "" && pending != id {
+			// an earlier call, for another id, failed as a whole. It may have got as far as repointing
+			// the hash to its id and deleting the records of cfg.RunId : the position is labelled with
+			// that id then, and relabelling from cfg.RunId would find nothing and store "no position"
+			// beside it. Finish that relabel first (nothing to do when it had completed on the target)
+			err = checkpoint.UpdateCheckpoint(cli, ro.cfg.CheckpointName, []string{pending, ro.cfg.RunId})
+			if err != nil {
+				ro.logger.Errorf("update checkpoint error : cp(%s), runId(%s,%s), err(%v)", ro.cfg.CheckpointName, pending, ro.cfg.RunId, err)
+				return err
+			}
+			ro.cfg.RunId = pending
+		}
+		ro.pendingRunId = id
 		err = checkpoint.UpdateCheckpoint(cli, ro.cfg.CheckpointName, []string{id, ro.cfg.RunId})
 		if err != nil {
 			// the position is still labelled with the old id: keep it, so that the retry (and the
@@ -278,6 +295,7 @@ func (ro *RedisOutput) SetRunId(ctx context.Context, id string) error {
 		}
 		ro.logger.Infof("UpdateCheckpoint : cp(%s), runId(%s,%s)", ro.cfg.CheckpointName, id, ro.cfg.RunId)
 		ro.cfg.RunId = id
+		ro.pendingRunId = ""
 		return nil
 	}, 3, time.Second*4, 0.3)
 }
